@@ -288,3 +288,12 @@ def nontrivial(c):
     can_fire = trig[0] in (0, 1) or (trig[0] == 3 and any(o[0] == 3 for o in ops)) or \
         (trig[0] == 2 and any(t < rc.NEVER for t in trig[2]))
     return nrec >= 2 and can_fire
+
+
+def extra_checks(ctx, cases_, impl_lines, model_lines_):
+    """Windows at the very end of the u32 index space (base + count = 2^32 and neighbours): the appender model keeps
+    archive indices in `nat`, so these windows are exercised through C07's roller model (indices in N) - "only whole
+    oldest files are discarded by the retention window" holds for every window the roller accepts."""
+    from gen import xcheck
+    return xcheck.borrow(ctx, "C07", "retention window at the end of the u32 index space",
+                         lambda c: c[0] == 0 and c[1] > (1 << 32) - 100, n=120)
